@@ -12,7 +12,8 @@ From TK Require Import QuadTree_Model QuadTree_Spec QuadTree_SpecExec QuadTree_P
                        QuadTree_Proof_Observers QuadTree_Proof_Order QuadTree_Proof_Order2 QuadTree_Proof_Bound
                        QuadTree_Proof_Gradient QuadTree_Proof_Dump QuadTree_Proof_Coarse QuadTree_Proof_Counts QuadTree_Proof_Terminates
                        QuadTree_Proof_Final QuadTree_Proof_Sqrt
-                       QuadTree_Proof_Theta QuadTree_Float_Model QuadTree_Proof_Float QuadTree_Proof_FloatExact.
+                       QuadTree_Proof_Theta QuadTree_Float_Model QuadTree_Proof_Float QuadTree_Proof_FloatExact
+                       QuadTree_Proof_FloatQ.
 Import ListNotations.
 Local Open Scope Q_scope.
 
@@ -529,3 +530,35 @@ Example no_crack_below_grid_root_nonvacuous :
   cell_on_grid_b (-1) (2 ^ (FloatOps.prec - Z.of_nat 40)) unit_cell /\
   Forall (fun k => (k < 4)%nat) [0; 3; 1]%nat /\ pt_finite origin_pt.
 Proof. exact no_crack_hyps. Qed.
+
+(* 15. on that class the binary64 box arithmetic REFINES the exact-rational model of this development (QuadTree_Model.v):
+       F2Q x = the rational value of the double x, cellQ / ptQ = a binary64 cell / point read as rationals.  The real
+       code's containment decision is the exact model's decision (15a), its child boxes are the exact model's child boxes
+       (15b), and so along every path of length <= d below a root with d spare significand bits (15).  Hence on the exact
+       stream of the check (dyadic inputs) "model and implementation must agree exactly" on every containment decision. *)
+Theorem box_arithmetic_binary64_refines_exact_model : forall (path : list nat) g d root p,
+  (length path <= d)%nat -> (Z.of_nat d <= FloatOps.prec)%Z ->
+  (gmin + Z.of_nat d <= g <= gmax)%Z ->
+  cell_on_grid_b g (2 ^ (FloatOps.prec - Z.of_nat d)) root ->
+  Forall (fun k => (k < 4)%nat) path ->
+  pt_finite p ->
+  cell_eq (cellQ (fdescend path root)) (qdescend path (cellQ root)) /\
+  fcontains (fdescend path root) p = contains (qdescend path (cellQ root)) (ptQ p).
+Proof. exact box_arithmetic_refines_gen. Qed.
+Print Assumptions box_arithmetic_binary64_refines_exact_model.
+Example box_arithmetic_refines_nonvacuous :
+  (length [0; 3; 1]%nat <= 40)%nat /\ (Z.of_nat 40 <= FloatOps.prec)%Z /\ (gmin + Z.of_nat 40 <= -1 <= gmax)%Z /\
+  cell_on_grid_b (-1) (2 ^ (FloatOps.prec - Z.of_nat 40)) unit_cell /\
+  Forall (fun k => (k < 4)%nat) [0; 3; 1]%nat /\ pt_finite origin_pt.
+Proof. exact refines_hyps. Qed.
+Theorem containsPoint_binary64_is_exact_model : forall g c p,
+  (gmin <= g <= gmax)%Z -> cell_on_grid g c -> pt_finite p ->
+  fcontains c p = contains (cellQ c) (ptQ p).
+Proof. exact fcontains_refines_gen. Qed.
+Print Assumptions containsPoint_binary64_is_exact_model.
+Theorem child_boxes_binary64_are_exact_model : forall g c,
+  (gmin <= g <= gmax)%Z -> cell_on_grid g c ->
+  cell_eq (cellQ (fnwc c)) (nwc (cellQ c)) /\ cell_eq (cellQ (fnec c)) (nec (cellQ c)) /\
+  cell_eq (cellQ (fswc c)) (swc (cellQ c)) /\ cell_eq (cellQ (fsec c)) (sec (cellQ c)).
+Proof. exact fchildren_refine_gen. Qed.
+Print Assumptions child_boxes_binary64_are_exact_model.
